@@ -333,7 +333,7 @@ class StatisticalContinuumSampler(AbstractContinuumSampler):
 
                 end = start + abs(np.random.normal(self._avg_unit_duration, self._std_unit_duration))
                 # Segments shorter than segment precision are illegal for pyannote
-                while end - start < pyannote.core.segment.SEGMENT_PRECISION:
+                while end - start <= pyannote.core.segment.SEGMENT_PRECISION:
                     end = start + abs(np.random.normal(self._avg_unit_duration, self._std_unit_duration))
 
                 category = np.random.choice(self._categories, p=self._categories_weight)
